@@ -73,7 +73,20 @@ def persist_replay_rule(ctx, rid):
         if k in ("combos", "cases", "fn_args", "constants"):
             good = t == k
         elif k == "farmer":
-            good = t == "farmer_pkl"
+            # by role: a local of save_info whose definitions are a pickle of the farmer (to_pickle(...)) or None, or the pickling expression itself
+            good = "to_pickle(" in t
+            try:
+                e_ = ast.parse(t, mode="eval").body
+            except SyntaxError:
+                e_ = None
+            if isinstance(e_, ast.Name):
+                dfs = [v_ for _, v_ in assignments_to(si, e_.id) if v_ is not None]
+                good = bool(dfs) and all(("to_pickle(" in norm(v_)) or (isinstance(v_, ast.Constant) and v_.value is None) or (isinstance(v_, ast.IfExp) and "to_pickle(" in norm(v_)) or
+                                         (isinstance(v_, ast.Call) and norm(v_.func).startswith("self.")) for v_ in dfs) and any("to_pickle(" in norm(v_) or (isinstance(v_, ast.Call) and norm(v_.func).startswith("self.")) for v_ in dfs)
+                if not good and dfs and not any(x in norm(v_) for v_ in dfs for x in ("pickle", "farmer")):
+                    pass
+                elif not good:
+                    raise AnalysisError("idiom changed: the farmer entry of the settings record is `%s` = %s" % (t, [norm(v_)[:40] for v_ in dfs]))
         else:
             good = t == "self." + k
         if good:
